@@ -93,7 +93,7 @@ def harness(ctx):
 
 # ---------------------------------------------------------------------------------------------------------------------
 # extra cover passes: the same transitions again from other histories (other representations of the same text)
-def _run_pass(ctx, g, exe, cls, scripts, tag):
+def _run_pass(ctx, g, exe, cls, scripts, tag, env=None, keysuffix=""):
     """scripts: list of Script (prefix + targets).  Runs them; a hard failure inside a chain re-queues the rest of the chain.
     Every failing step is charged to the edge executed at that step."""
     nscripts = nsteps = 0
@@ -105,7 +105,7 @@ def _run_pass(ctx, g, exe, cls, scripts, tag):
     while todo and rounds < 50:
         rounds += 1
         bysid = {s.sid: s for s in todo}
-        fails, _, ns, nt = run_scripts(exe, [cls], [s.text(g) for s in todo], ctx.rundir, tag="%s-%s" % (cls, tag))
+        fails, _, ns, nt = run_scripts(exe, [cls], [s.text(g) for s in todo], ctx.rundir, tag="%s-%s" % (cls, tag), env=env)
         nscripts += ns
         nsteps += nt
         again = []
@@ -117,12 +117,12 @@ def _run_pass(ctx, g, exe, cls, scripts, tag):
             st = min(f.step, len(ix) - 1)
             e = g.edict(ix[st])
             nfail += 1
-            key = keyfn(cls, e, f)
+            key = keyfn(cls, e, f) + keysuffix
             if key not in seen:
                 seen.add(key)
                 ctx.report(key, "%s (%s pass): %s at step %d (%s) exp=%s got=%s %s" % (cls, tag, f.kind, st, step_line(e), f.exp, f.got, f.sig),
                            {"variant": cls, "harness_args": [cls], "script": s.describe(g, st), "failure": repr(f), "detail": f.detail,
-                            "script_text": s.text(g)})
+                            "script_text": s.text(g), "env": env or {}})
             hard = f.kind in ("crash", "hang", "exit", "state", "inv")
             npre = len(s.prefix)
             if hard and st >= npre and st < len(ix) - 1:
@@ -190,6 +190,81 @@ def extra_passes(ctx, g, lp, exe, cls, label):
         "from_new_plus_append_char": {"states": nstates, "scripts": a2[0], "steps": a2[1], "failures": a2[2]}}
     ctx.add("traces_validated_against_impl", a1[0] + a2[0])
     ctx.add("evaluations", a1[1] + a2[1])
+
+
+def state_passes(ctx, g, lp, exe, cls, label):
+    """What an earlier call leaves behind for the next one (tools/round5_note.md class 1), in direction (A):
+    (1) the whole transition cover again with errno preset to ERANGE, and again to EINTR, before EVERY call ("left behind by an
+        earlier call of the program"): every return value and text must be what the specification says, whatever errno was;
+    (2) refused-first pairs: in every state, one representative of every refused call (return FALSE / ok=F / -1 / E) is followed
+        by every other transition of that state - all self-loops interleaved (l x1 l x2 ...) and a seeded sample of the moves."""
+    import zlib
+    sid = [0]
+
+    def chains(prefix, out):
+        res = []
+        node_loops = [i for i in out if g.is_loop(i)]
+        moves = [i for i in out if not g.is_loop(i)]
+        for c in range(0, len(node_loops), 400):
+            sid[0] += 1
+            res.append(Script(sid[0], list(prefix), node_loops[c:c + 400]))
+        for i in moves:
+            sid[0] += 1
+            res.append(Script(sid[0], list(prefix), [i]))
+        return res
+
+    cov = {}
+    base = []
+    for qk, path in lp.path.items():
+        if all(i in lp.verified for i in path):
+            base += chains(path, [i for i in g.out.get(qk, []) if i in lp.verified])
+    for en, name in ((34, "ERANGE"), (4, "EINTR")):
+        a = _run_pass(ctx, g, exe, cls, base, "errno-" + name, env={"C01_ERRNO": str(en)}, keysuffix=" errno=" + name)
+        cov["cover_with_errno_" + name] = {"scripts": a[0], "steps": a[1], "failures": a[2]}
+        ctx.add("traces_validated_against_impl", a[0])
+        ctx.add("evaluations", a[1])
+    # (2) refused-first pairs
+    cap = 30000 if ctx.tier == "quick" else 150000
+    scripts, cands = [], []
+    nrep = 0
+    for qk, path in lp.path.items():
+        outs = [i for i in g.out.get(qk, []) if i in lp.verified]
+        loops = [i for i in outs if g.is_loop(i)]
+        moves = [i for i in outs if not g.is_loop(i)]
+        reps = {}
+        for i in loops:
+            head = g.line(i).split(" ", 1)
+            op = head[0]
+            ret = g.line(i).split(" = ", 1)[1].split(" ", 1)[0]
+            if ret in ("F", "-1", "*") or ret.startswith("{ok=F"):
+                reps.setdefault(op, i)
+        for op in sorted(reps):
+            l = reps[op]
+            nrep += 1
+            inter = []
+            xs = loops
+            if ctx.tier != "quick" and len(xs) > 120:       # thorough scopes: a seeded sample of the followers
+                xs = sorted(xs, key=lambda x: zlib.crc32(("%d|%s|%s" % (ctx.seed, g.line(l), g.line(x))).encode()))[:120]
+            for x in xs:
+                inter += [l, x]
+            for c in range(0, len(inter), 400):
+                sid[0] += 1
+                scripts.append(Script(sid[0], list(path), inter[c:c + 400]))
+            for m in moves:
+                cands.append((path, l, m))
+    total = len(cands)
+    if total > cap:
+        cands.sort(key=lambda c: zlib.crc32(("%d|%s|%s" % (ctx.seed, g.line(c[1]), g.line(c[2]))).encode()))
+        cands = cands[:cap]
+    for path, l, m in cands:
+        sid[0] += 1
+        scripts.append(Script(sid[0], list(path), [l, m]))
+    a = _run_pass(ctx, g, exe, cls, scripts, "refused-first", keysuffix=" after-refused")
+    cov["refused_first_pairs"] = {"representatives": nrep, "move_pairs": len(cands), "move_pair_candidates": total,
+                                  "scripts": a[0], "steps": a[1], "failures": a[2]}
+    ctx.add("traces_validated_against_impl", a[0])
+    ctx.add("evaluations", a[1])
+    ctx.cov.setdefault("state_passes", {})[label] = cov
 
 
 # ---------------------------------------------------------------------------------------------------------------------
@@ -473,8 +548,80 @@ def UP(c):
     return c - 32 if 97 <= c <= 122 else c
 
 
+BIGDIGITS = [57] * 22            # a decimal (and hexadecimal) numeral far beyond size_t: to_num overflows, strtoul leaves errno = ERANGE
+# what refused / failed calls leave behind (tools/round5_note.md class 1): this block is inserted behind the first constructor of
+# EVERY deterministic family - calls the specification refuses or answers with its fail-soft value, and a conversion that overflows
+PRELUDE = [("a", "substr", [99999, 1]), ("a", "splice_from_ptr", [-99999, 0, []]), ("a", "append", []), ("a", "prepend", []), ("a", "find", []),
+           ("a", "cmp", []), ("a", "ncmp_with_ptr_null", [1]), ("b", "new_from_ptr", [BIGDIGITS]), ("b", "to_num", [10]), ("b", "to_num", [16]),
+           ("b", "substr_to_ptr", [22, 1]), ("b", "del", [])]
+
+
+def fam_numbers(tier):
+    """The number conversions on every kind of valid text, before and after conversions that overflow (on the same object, on the
+    other object), each followed by every kind of action."""
+    d = lambda t: [ord(c) for c in t]
+    every = [("a", "len", []), ("a", "index", [50]), ("a", "rindex", [49]), ("a", "find_from_ptr", [d("2")]), ("a", "substr", [0, 1]),
+             ("a", "substr_to_ptr", [-1, 1]), ("a", "cmp_with_ptr", [d("12")]), ("a", "casecmp_with_ptr", [d("12")]), ("a", "ncmp_with_ptr", [d("13"), 1]),
+             ("a", "find_self", []), ("a", "cmp_self", []), ("a", "find_from_ptr_own", [1]), ("a", "cmp_with_ptr_own", [0]),
+             ("a", "to_num", [10]), ("a", "to_num", [16]), ("a", "to_float", [])]
+    h = [("a", "new_from_ptr", [d("12")])] + every
+    h += [("b", "new_from_ptr", [BIGDIGITS]), ("b", "to_num", [10])] + every + [("b", "to_num", [16])] + every
+    h += [("b", "len", []), ("a", "cmp", []), ("a", "find", []), ("b", "find", []), ("b", "to_num", [10]), ("a", "to_num", [10]), ("b", "del", [])]
+    for t in ("0", "7", "999999999", "000000012", "4294967", "1a", "7fffff", "FFFFFFF", "AbCd", ""):
+        h += [("a", "re_from_ptr", [d(t)])]
+        if all(c in "0123456789" for c in t):
+            h += [("a", "to_num", [10]), ("a", "to_float", [])]
+        if len(t) <= 7:
+            h += [("a", "to_num", [16])]
+        h += [("a", "dup", []), ("b", "re_from_ptr", [BIGDIGITS]), ("b", "to_num", [16])] + ([("a", "to_num", [16])] if len(t) <= 7 else []) + [("b", "del", [])]
+    # the overflow on the object itself, then a valid text in the same object through every constructor
+    for ctor, args in (("re_from_ptr", [d("42")]), ("re_from_num", [42]), ("re_from_buff", [d("42") + [0, 55], 4]), ("re_from_fd", [d("42"), 0]),
+                       ("re_from_fp", [d("42") + [10, 55], 1]), ("re_from_num_x", limbs(999999999))):
+        h += [("a", "re_from_ptr", [BIGDIGITS]), ("a", "to_num", [10]), ("a", ctor, args), ("a", "to_num", [10]), ("a", "to_float", [])]
+        if ctor != "re_from_num_x":            # 9 hexadecimal digits are outside the conversions the model defines (32-bit TLC integers)
+            h += [("a", "to_num", [16])]
+    for m in (("append_char", [51]), ("prepend_char", [49]), ("splice_from_ptr", [0, 1, d("9")]), ("sprintf_d", [123]), ("sprintf_s", [d("77")]),
+              ("reverse", []), ("trim", []), ("clear", [56]), ("append_self", []), ("done", [])):
+        h += [("a", "re_from_ptr", [BIGDIGITS]), ("a", "to_num", [16]), ("a", "re_from_ptr", [d("21")]), ("a", m[0], m[1]), ("a", "to_num", [10]), ("a", "to_float", [])]
+    return [("numbers", h)]
+
+
+def fam_empty(tier):
+    """The empty text in both of its representations (no buffer / a buffer holding only the terminator), reached in every way, as the
+    receiver and as the object argument of every operation (tools/round5_note.md class 2), and the source-inside-receiver shapes."""
+    ways = [[("b", "new", [])], [("b", "new_from_ptr", [[]])], [("b", "new_from_ptr_null", [])], [("b", "new_from_buff", [[], 0])],
+            [("b", "new_from_buff", [[0, 97], 2])], [("b", "new_from_buff_null", [3])], [("b", "new_from_buff_null", [0])], [("b", "new_from_fd", [[], 0])],
+            [("b", "new_from_fd", [[], 3])], [("b", "new_from_fp", [[], 0])], [("b", "new_from_fp", [[10, 97], 1])],
+            [("b", "new_from_ptr", [[32, 9]]), ("b", "trim", [])], [("b", "new_from_ptr", [[97]]), ("b", "done", [])],
+            [("b", "new_from_ptr", [[97, 98]]), ("b", "splice_from_ptr", [0, 2, []])], [("b", "new_from_ptr", [[97]]), ("b", "sprintf_lit", [[]])],
+            [("b", "new_from_ptr", [[97]]), ("b", "sprintf_s", [[]])], [("b", "new_from_ptr", [[97]]), ("b", "re", [])],
+            [("b", "new_from_buff_gen", [1, 5000]), ("b", "splice_from_ptr", [0, 1, []])], [("b", "new_from_num", [5]), ("b", "re_from_ptr", [[]])]]
+    queries = [("b", "len", []), ("b", "find", []), ("b", "cmp", []), ("b", "casecmp", []), ("b", "ncmp", [2]), ("b", "ncasecmp", [0]),
+               ("b", "index", [97]), ("b", "rindex", [97]), ("b", "find_from_ptr", [[]]), ("b", "find_from_ptr", [[97]]), ("b", "substr", [0, 1]),
+               ("b", "substr_to_ptr", [-1, 0]), ("b", "to_num", [10]), ("b", "to_num", [16]), ("b", "to_float", []), ("b", "cmp_with_ptr", [[]]),
+               ("b", "cmp_with_ptr", [[97]]), ("b", "casecmp_with_ptr", [[]]), ("b", "ncmp_with_ptr", [[97], 0]), ("b", "cmp_self", []),
+               ("b", "ncasecmp_self", [1]), ("b", "find_self", []), ("b", "find_from_ptr_own", [0]), ("b", "cmp_with_ptr_own", [0]),
+               ("b", "cmp_with_ptr_null", [])]
+    keep = [("b", "trim", []), ("b", "reverse", []), ("b", "upcase", []), ("b", "downcase", []), ("b", "clear", [120]),
+            ("b", "splice_from_ptr", [0, 0, [97]]), ("b", "splice", [0, 0]), ("b", "splice_self", [0, 0]), ("b", "append_self", []), ("b", "prepend_self", []),
+            ("b", "append_from_ptr", [[]]), ("b", "prepend_from_ptr", [[]]), ("b", "sprintf_lit", [[]])]
+    out = []
+    for actor in ([("a", "new_from_ptr", [[97, 66, 32]])], [("a", "new", [])], [("a", "new_from_ptr", [[]])], [("a", "new_from_buff", [[0], 1])]):
+        h = list(actor)
+        for way in ways:
+            h += way
+            h += [("a", "append", []), ("a", "prepend", []), ("a", "splice", [0, 0]), ("a", "splice", [-1, 1]), ("a", "find", []), ("a", "cmp", []),
+                  ("a", "casecmp", []), ("a", "ncmp", [1]), ("a", "ncasecmp", [0])]
+            h += queries + keep + queries[:6]
+            h += [("b", "append", []), ("b", "done", []), ("b", "prepend", []), ("b", "del", []), ("a", "dup", []), ("b", "append_char", [120]), ("b", "del", []),
+                  ("a", "re" + actor[0][1][3:], actor[0][2])]
+        out.append(("empty", h))
+    return out
+
+
 def families(tier):
-    return fam_growth(tier) + fam_sweep(tier) + fam_slack(tier) + fam_values(tier) + fam_extreme(tier)
+    fams = fam_growth(tier) + fam_sweep(tier) + fam_slack(tier) + fam_values(tier) + fam_extreme(tier) + fam_numbers(tier) + fam_empty(tier)
+    return [(l, h[:1] + PRELUDE + h[1:]) for l, h in fams]
 
 
 def opname(sl, bop):
@@ -570,23 +717,23 @@ def trace_validation(ctx, exe):
             again, afails = record(ctx, exe, cls, hist[nexec:], ftexts, errno_preset=en, raw=True, debug_level=dl)
             purity += len(again)
             for f in afails:
-                sl, bop, args, key = _fail_key(cls, labels[nexec + f.sid - 1], hist[nexec:], f)
+                sl, bop, args, key = _fail_key(cls, labels[f.sid - 1], hist, f)      # script ids are global (history_text)
                 ctx.report(key + " errno=" + name, "%s: run with errno preset to %s fails at step %d (%s): %r" % (cls, name, f.step, opname(sl, bop), f),
-                           {"variant": cls, "harness_args": [cls], "script_text": ftexts[f.sid - 1], "failure": repr(f), "detail": f.detail,
-                            "trace_family": labels[nexec + f.sid - 1], "errno": en, "debug_level": dl})
+                           {"variant": cls, "harness_args": [cls], "script_text": texts[f.sid - 1], "failure": repr(f), "detail": f.detail,
+                            "trace_family": labels[f.sid - 1], "errno": en, "debug_level": dl})
             if not afails and again != base:
                 k = next((i for i in range(min(len(again), len(base))) if again[i] != base[i]), 0)
                 sid, step = base[k][0], base[k][1]
-                sl, bop, args = hist[nexec + sid - 1][step]
-                ctx.report("impure[%s] %s.%s errno=%s" % (labels[nexec + sid - 1].split(":")[0], cls, bop, name),
+                sl, bop, args = hist[sid - 1][step]
+                ctx.report("impure[%s] %s.%s errno=%s" % (labels[sid - 1].split(":")[0], cls, bop, name),
                            "%s: %s gives a different result when errno is %s before the call: %s vs %s" % (
                                cls, opname(sl, bop), name, str(base[k][2:])[:120], str(again[k][2:])[:120]),
-                           {"variant": cls, "harness_args": [cls], "script_text": ftexts[sid - 1], "trace_family": labels[nexec + sid - 1], "errno": en, "debug_level": dl})
+                           {"variant": cls, "harness_args": [cls], "script_text": texts[sid - 1], "trace_family": labels[sid - 1], "errno": en, "debug_level": dl})
     ctx.add("trace_events_validated", total)
     ctx.add("traces_validated_against_impl", len(hist) * len(CLASSES))
     ctx.cov["trace_longest_text"] = maxlen
     ctx.cov["trace_families"] = {"random": nexec, "deterministic": nfam, "by_family": {l: sum(1 for x in labels if x.split(":")[0] == l)
-                                                                                   for l in ("growth", "sweep", "slack", "values", "extreme")},
+                                                                                   for l in ("growth", "sweep", "slack", "values", "extreme", "numbers", "empty")},
                                  "stale_errno_purity_records": purity}
 
 
@@ -625,6 +772,8 @@ def run(ctx):
             label = "%s:%s" % (cls, cfg)
             ctx.cov["replay"][label] = ctx.cov["replay"].pop(cls)
             extra_passes(ctx, g, lp, exe, cls, label)
+            if not ctx.violations:
+                state_passes(ctx, g, lp, exe, cls, label)
         del g
     trace_validation(ctx, exe)
     ctx.cov["exhaustive"] = True
@@ -651,7 +800,7 @@ def replay(ctx, path):
             print("not reproduced: the recorded run passes (%d steps)" % len(recs))
         return 1 if fails else 0
     if "event_index" not in rp:
-        return objcheck.replay_file(exe, [], path, ctx.rundir)
+        return objcheck.replay_file(exe, [], path, ctx.rundir, env=rp.get("env") or None)
     # a recorded execution that TLC rejected: record it again on the current tree and validate it again
     from vlib import trace
     cls = rp["variant"]
